@@ -149,3 +149,7 @@ Definition trace_tgt_float (ft : nat) (T : @program float) (seed : Z) :=
   let O := pool_oracle seed default_pool in
   let fin := run FloatAlg O T ft (init_state FloatAlg) in
   (map show_event (trace fin), pc fin, status_code (st fin)).
+
+From PV Require Import IC10.Monitor.
+Definition monitor_float (ft : nat) (T : @program float) (seed : Z) :=
+  monitor FloatAlg (pool_oracle seed default_pool) T ft.
